@@ -145,6 +145,19 @@ Theorem C10_any_history_of_whole_tree_saves :
 Proof. exact any_history_of_whole_tree_saves. Qed.
 Print Assumptions C10_any_history_of_whole_tree_saves.
 
+(* a list of roots and unrooted items saved (append / append-over) into a file that may already hold some of the listed
+   roots: the listed trees are handled one after the other, each a new tree, an append or an append-over according to what
+   the file holds when its turn comes (steps = that classification, one step per listed tree, in list order) *)
+Theorem C10_a_list_of_trees_appended_to_a_file_that_may_hold_some_of_them :
+  forall c tops items md tr ts steps,
+    In md (appendmode ++ appendovermode) -> no_rooted_items items -> nodup_nat (list_unrooted_idx tops items) = true ->
+    map hroot steps = list_saved tops items ++ list_given tops items ->
+    Forall (fun st => hmode st = md /\ htree st = Some true) steps ->
+    ts <> [] -> Forall (fun t => rcls t = CRoot) ts -> NoDup (map rname ts) -> hgood ts steps ->
+    write_list c (H5 (forest_file c ts)) tops items (WA md tr None) = (Ok tt, H5 (forest_file c (fold_left happly steps ts))).
+Proof. exact list_of_trees_into_an_existing_file. Qed.
+Print Assumptions C10_a_list_of_trees_appended_to_a_file_that_may_hold_some_of_them.
+
 (* non-vacuity: file [r1/{a}]; then a new tree r2/{k}; then r1/{a/{y}, b} appended; then r2/{k'} appended over *)
 Example C10_history_example :
   let r1 := RN CRoot "r1" 0%Z 0 [] [RN CNode "a" 0%Z 0 [] []] in
